@@ -1,6 +1,5 @@
 from __future__ import annotations
 
-from dataclasses import is_dataclass
 import inspect
 import warnings
 from abc import ABC
@@ -391,7 +390,10 @@ class Grammar:
             if c in self.alternatives:
                 for k in self.alternatives[c]:
                     add(k)
-            elif is_dataclass(c):
+            elif c in [bool, int, str, float, list, tuple]:
+                pass
+            elif not is_abstract(c):
+                # a production, declared as a dataclass or as a plain class with a typed constructor
 
                 def add_type(k):
                     if is_metahandler(k) or is_generic_list(k):
@@ -404,8 +406,6 @@ class Grammar:
 
                 for _, k in get_arguments(c):
                     add_type(k)
-            elif c in [bool, int, str, float, list, tuple]:
-                pass
             else:
                 assert False
 
